@@ -347,17 +347,20 @@ fn served(c: &Conc, r: &CertificateResolver, sni: &str) -> u8 {
 struct Viol { class: String, detail: Value }
 
 /// compare all probes of `node` against the real resolver
-fn check_probes(c: &Conc, r: &CertificateResolver, node: &Node, stats: &Stats) -> Result<(), Viol> {
+fn check_probes(c: &Conc, r: &CertificateResolver, node: &Node, exact_state: bool, stats: &Stats) -> Result<(), Viol> {
     for (i, p) in c.probes.iter().enumerate() {
         let row = &node.table[i];
         let got = served(c, r, p);
-        stats.probes.fetch_add(1, Ordering::Relaxed);
-        if row.adm.len() > 1 { stats.multi_adm.fetch_add(1, Ordering::Relaxed); }
+        if exact_state {
+            stats.probes.fetch_add(1, Ordering::Relaxed);
+            if row.adm.len() > 1 { stats.multi_adm.fetch_add(1, Ordering::Relaxed); }
+        }
         if !row.adm.contains(&got) {
             let class = if got == 0 { "covered-name-gets-default" } else if got == 99 { "trie-points-to-unloaded" }
                         else if row.adm == [0] { "uncovered-name-gets-certificate" } else { "wrong-certificate" };
             return Err(Viol { class: class.into(), detail: json!({"probe": p, "served": got, "admissible": row.adm, "spec_code": row.code}) });
         }
+        if !exact_state { continue; }
         if got != row.code { stats.code_differs.fetch_add(1, Ordering::Relaxed); }
         let mut names: Vec<u8> = Vec::new();
         if let Some(ns) = r.names_for_sni(p.as_bytes()) {
@@ -423,6 +426,11 @@ impl<'a> Runner<'a> {
         apply(g, c, &mut self.r, &g.ops[k], rng).map_err(|e| Viol { class: "op-result".into(), detail: json!({"error": e}) })?;
         let st = project(g, c, &self.r).map_err(|e| Viol { class: "structure".into(), detail: json!({"error": e}) })?;
         let node = &g.nodes[self.cur];
+        // Property level first: the admissible sets depend only on the abstract store, which is the same in
+        // every successor the spec allows for this operation, so the probes can be judged even when the
+        // internal structures turn out not to be what the spec says.
+        let judge = if node.succ[k].is_empty() { self.cur } else { node.succ[k][0] };
+        check_probes(c, &self.r, &g.nodes[judge], false, self.stats)?;
         let next = if node.succ[k].is_empty() {
             if st != node.st {
                 return Err(Viol { class: "noop-changed-state".into(), detail: json!({"real": st.to_json(), "spec": node.st.to_json()}) });
@@ -438,7 +446,8 @@ impl<'a> Runner<'a> {
                     "spec_allows": node.succ[k].iter().map(|j| g.nodes[*j].st.to_json()).collect::<Vec<_>>()}) }),
             }
         };
-        check_probes(c, &self.r, &g.nodes[next], self.stats)?;
+        // structures agree with the spec state: now also the state-dependent predictions (SAN snapshot)
+        check_probes(c, &self.r, &g.nodes[next], true, self.stats)?;
         Ok(next)
     }
 }
